@@ -159,7 +159,7 @@ def cases(tier):
         for nl in (0, 2):
             cs.append(Case('heap-%s-new%d' % ('_'.join(map(str, lens)), nl), body,
                            params={'lens': lens, 'newlen': nl}, max_fanout=100))
-    for tight in ([0, 250, 180] if tier != 'thorough' else [0, 300, 250, 220, 180, 160]):
+    for tight in ([0, 250, 180] if tier != 'thorough' else [0, 250, 230, 200, 180]):
         cs.append(Case('session-strings-free%d' % tight, body_session, params={'tight': tight},
                        max_fanout=100, timeout_s=3000, max_paths=5000))
     return cs
